@@ -204,6 +204,25 @@ pub fn expectation(fd: Option<&FileDiff>, lines: (usize, usize, usize, usize), s
     }
 }
 
+/// K2 shape, judged from the statement ("deletes a line lying between its start-tag comment and its end-tag
+/// comment"): a change group that re-writes the block's own-line start-tag line and, right below the old tag
+/// line, removes further lines that hold no tag (`-<tag> -l1 +<tag'>`), or re-writes its own-line end-tag line and
+/// removes tag-less lines right above the old one (`-l2 -</block> +</block> x`). The removed lines sat between
+/// the two tags, so the block is modified although no ADDED line lies inside it.
+pub fn k2_must(fd: &FileDiff, lines: (usize, usize, usize, usize)) -> bool {
+    let (s1, s2, e1, e2) = lines;
+    let tagless = |t: &str| !t.contains("<block") && !t.contains("</") && !t.contains("block>");
+    fd.groups.iter().any(|g| {
+        if !(g.mixed() && g.added.len() == 1 && g.removed.len() >= 2 && !g.old_eof_marker) {
+            return false;
+        }
+        let n = g.added[0].0;
+        let below_start = s1 == s2 && n == s1 && g.removed[0].1.contains("<block") && g.added[0].1.contains("<block") && g.removed[1..].iter().all(|(_, t)| tagless(t));
+        let above_end = e1 == e2 && n == e1 && g.removed.last().unwrap().1.contains("</block") && g.added[0].1.contains("</block") && g.removed[..g.removed.len() - 1].iter().all(|(_, t)| tagless(t));
+        below_start || above_end
+    })
+}
+
 /// K1 signature: the file's diff holds a pure-deletion group recorded at an old line number that differs
 /// from its new-side position (any earlier net shift).
 pub fn k1_shape(fd: &FileDiff) -> bool {
@@ -386,6 +405,14 @@ pub fn check(c: &DriftCase, probe: &Probe) -> Verdict {
                 probe.class("edit:start-tag-comment-line-only");
             }
             let e = expectation(fd, lines, t.same_comment, own_line_tag);
+            // lines deleted right below a re-written start-tag line / right above a re-written end-tag line
+            let via_k2 = e != Expect::MustModified && !t.same_comment && fd.is_some_and(|fd| k2_must(fd, lines));
+            let e = if via_k2 {
+                probe.class("edit:lines-deleted-next-to-a-rewritten-tag-line(K2 shape)");
+                Expect::MustModified
+            } else {
+                e
+            };
             let l = find_listed(&listing, &w.paths[i], t);
             let observed = l.map(|l| l.modified);
             let bad = match e {
@@ -406,6 +433,10 @@ pub fn check(c: &DriftCase, probe: &Probe) -> Verdict {
                 if k3 && known::listed("K3") {
                     // a body line printed as `--- …` / `+++ …` is taken for a file header: anything may follow
                     known_hit = Some("K3");
+                    continue;
+                }
+                if via_k2 && known::listed("K2") {
+                    known_hit = Some("K2");
                     continue;
                 }
                 if let Some(fd) = fd
@@ -685,14 +716,15 @@ pub fn small_scope_cases() -> Vec<DriftCase> {
 }
 
 pub fn run(run: &mut Run) {
-    run.rule = "enumerated small scope: every edit script of <= 2 single-line operations at every position of a fixed nine-line Python file with nested, linked blocks under -U0 and -U3 (1 624 cases). random: 1..4 files of random suffixes (root or sub-directories, one with a space, two whose names sort differently by bytes and by path components: `f0/` next to `f0.<ext>`, `src-gen/` next to `src/`), each a balanced list of own-line tag comments (any comment form of the language, 15% multi-line comments, 12% start tags spread over several lines, indentation), blocks named from a pool of 7 (duplicates, unnamed, one name holding a colon, one holding two-byte characters) with affects lists of 1..3 references (same file, other file, missing file, missing name, cycles), 20% of them with severity warning / Info (reported, not failing) or the unknown value `warn` (harmless while every link of the block is satisfied, a hard error once it has a stale one) and code lines; an edit script of 0..8 operations on new-side lines (add k lines, delete k lines at a gap, replace a line incl. tag lines; every third replacement differs in trailing blanks only) from which the old state is derived; file fates modified / renamed / new / untouched / an extra deleted file; in 25% further entries in the same diff (a binary file, an added empty file, a changed file of unknown suffix holding unbalanced tags, a file emptied, a mode-only change, a symbolic link replaced by a regular file); hostile removed lines (`-- x`, `--- a/f`, `@@ -1 +1 @@`, …) in 10%; missing trailing newline in 15% (new state) / 25% (old state); CRLF files in 10%; real git in a generated mode (-U0..10, unstaged/--cached/HEAD/commit-to-commit/`git show` of the commit (header and message in front of the diff), 4 diff algorithms, -M). Oracle part 1: flag per block from an independent reader of git's diff (must / must-not / unspecified zones), part 2: affects diagnostics = reference model over the listed flags, exit status; part 3: after touching every linked block the run passes. Non-trivial = a file with >= 2 hunks, a must-modified block with affects and a must-not block.".into();
+    run.rule = "enumerated small scope: every edit script of <= 2 single-line operations at every position of a fixed nine-line Python file with nested, linked blocks under -U0 and -U3 (1 624 cases). random: 1..4 files of random suffixes (root or sub-directories, one with a space, two whose names sort differently by bytes and by path components: `f0/` next to `f0.<ext>`, `src-gen/` next to `src/`), each a balanced list of own-line tag comments (any comment form of the language, 15% multi-line comments, 12% start tags spread over several lines, indentation), blocks named from a pool of 7 (duplicates, unnamed, one name holding a colon, one holding two-byte characters) with affects lists of 1..3 references (same file, other file, missing file, missing name, cycles), 20% of them with severity warning / Info (reported, not failing) or the unknown value `warn` (harmless while every link of the block is satisfied, a hard error once it has a stale one) and code lines; an edit script of 0..8 operations on new-side lines (add k lines, delete k lines at a gap, replace a line incl. tag lines; every third replacement differs in trailing blanks only) from which the old state is derived; file fates modified / renamed / new / untouched / an extra deleted file; in 25% further entries in the same diff (a binary file, an added empty file, a changed file of unknown suffix holding unbalanced tags, a file emptied, a mode-only change, a symbolic link replaced by a regular file); hostile removed lines (`-- x`, `--- a/f`, `@@ -1 +1 @@`, …) in 10%; missing trailing newline in 15% (new state) / 25% (old state); CRLF files in 10%; real git in a generated mode (-U0..10, unstaged/--cached/HEAD/commit-to-commit/`git show` of the commit (header and message in front of the diff), 4 diff algorithms, -M). Oracle part 1: flag per block from an independent reader of git's diff (must / must-not / unspecified zones; tag-less lines removed right below a re-written own-line start-tag line or right above a re-written own-line end-tag line count as deleted inside the block - mismatches of exactly that shape are attributed to listed finding K2), part 2: affects diagnostics = reference model over the listed flags, exit status; part 3: after touching every linked block the run passes. Non-trivial = a file with >= 2 hunks, a must-modified block with affects and a must-not block.".into();
     run.assumptions = vec![
         "new-side file names avoid characters git C-quotes (the old name of every second renamed file holds non-ASCII letters and is printed C-quoted)".into(),
-        "mixed -/+ groups count through their added lines only (removed lines of a mixed group are not asserted: see K2 in DESIGN.md)".into(),
+        "mixed -/+ groups count through their added lines, plus one shape of surplus removed lines that the diff itself places inside the block: tag-less lines removed right below a re-written own-line start-tag line or right above a re-written own-line end-tag line (listed finding K2); other surplus removed lines of a mixed group are not asserted".into(),
         "changes touching or adjoining a tag comment line are unspecified for that block".into(),
     ];
     run.sentinel("K1", "drift", check);
     run.sentinel("K3", "drift", check);
+    run.sentinel("K2", "drift", check);
     run.enumerate("small-scope", small_scope_cases(), Some("all edit scripts of <= 2 single-line operations (add / delete at a gap / replace, every position) on a fixed nine-line file with a nested, linked pair of blocks x -U0 / -U3"), check);
     run.shrink_iters = 250;
     run.random("drift", run.tier.pick(1500, 40000), case_strategy, check);
